@@ -4,6 +4,10 @@ Case:  {"pool": [{"id": str|None, "name": str, "aliases": [str]|None}, ...],    
         "schemas": [{"name": str, "aliases": [str], "cols": [pool index, ...]}],  initial store of RelationSchema objects
         "ops": [op, ...]}   op =
   ["add", i, j]            store.append(store[i] + store[j])
+  ["add", i, j, via]       the same sum through another spelling: via = "operator.add" | "__add__" | "type.__add__"
+  ["iadd", i, j, via]      acc = store[i]; acc += store[j]; store.append(acc)   (via "+=" | "operator.iadd"): the augmented
+                           assignment while store[i] is still referenced; its specification is the plain sum (a NEW schema,
+                           store[i] and store[j] as they were) - model step HIAdd
   ["find", i, key, ci]     store[i].find_column(key, case_insensitive=ci)
   ["at", i, z]             store[i].column(z)              (int)
   ["col", i, key]          store[i].column(key)            (str)
@@ -24,8 +28,11 @@ Round 2: open/next make an iteration whose steps are interleaved with other call
 particular) part of the histories; the model keeps, per open iterator, the names it has still to yield.
 Round 3: sessions - whole lookup tables taken before and after every kind of change to the same objects (pop_column, sums,
 the caller's in-place mutations of a column object or of a column list), so that state kept beside the columns (a memo, an
-index, a shared list) shows as a wrong table entry."""
+index, a shared list) shows as a wrong table entry.
+Round 7: the union through its other spellings - `acc = s; acc += t` / operator.iadd (model step HIAdd, specified as the
+non-mutating sum), operator.add, s.__add__(t), type(s).__add__(s, t) - with the left operand still observed afterwards."""
 import itertools
+import operator
 
 from vlib import coqlit as L
 
@@ -42,7 +49,8 @@ LEVEL_TEXT = ("Machine-checked Coq theorems over an executable model of Relation
               "positional order, whatever removals / sums / lookups / other iterators are interleaved with its steps, iterators modify no "
               "schema, and `for n in s: if pred(n): s.pop_column(n)` removes exactly the selected columns; after ANY history (earlier lookups, "
               "removals, sums, the caller renaming a column object / assigning its aliases / editing a column list in place) every lookup "
-              "answers from the current value of the schema alone. The model is tied to schema.py by running real RelationSchema objects through all pairs of a small scope "
+              "answers from the current value of the schema alone; the union taken through the augmented assignment (acc = s; acc += t, chains "
+              "folded with +=) is, as a step, the plain sum: a new schema, every existing one (s included) unchanged. The model is tied to schema.py by running real RelationSchema objects through all pairs of a small scope "
               "and random histories (unions, chains, lookups, removals, open iterators advanced step by step, all interleaved) and evaluating the model on the same histories inside Coq, "
               "with the column lists of ALL schemas compared after every call; a direct property oracle supplies replayable failing inputs.")
 LEVEL_NOTE = ("Trusted: Coq kernel + vm_compute; the hand-written model (validated, not verified, against CPython list / str semantics by the "
@@ -56,7 +64,8 @@ DESIGN_REF = "DESIGN.md section 8, C17"
 COQ_IMPORTS = "From Orso Require Import Model.C17."
 COQ_CHECKS = {"hist": "c17_check"}
 COQ_SHOW = {"hist": "c17_show"}
-RULE = ("histories over {s_i + s_j (result appended to the store, so chains and self-sums occur), find_column (both modes), column(int), "
+RULE = ("histories over {s_i + s_j (result appended to the store, so chains and self-sums occur; also spelt acc = s_i; acc += s_j / "
+        "operator.iadd with s_i still referenced, operator.add, s_i.__add__(s_j)), find_column (both modes), column(int), "
         "column(str), pop_column, all_column_names, column_names, iteration (at once, and as it = iter(s) / next(it) interleaved with the "
         "other calls), whole lookup tables over a key set, in-place mutation of a column object's name / aliases and of a schema's column "
         "list by the caller} on real RelationSchema objects built from a pool of FlatColumn "
@@ -64,7 +73,8 @@ RULE = ("histories over {s_i + s_j (result appended to the store, so chains and 
         "schemas); exhaustive over all pairs of column lists of length <= k over a 4-column pool followed by a fixed probe history "
         "(iterators opened before each removal and advanced after it), exhaustive remove-while-iterating loops (every column list of "
         "length <= k+1, every subset of loop positions at which the yielded name is removed), exhaustive lookup sessions (every column "
-        "list of length <= k+1, both lookup tables, removal of each of its names, both tables again), then random histories, random "
+        "list of length <= k+1, both lookup tables, removal of each of its names, both tables again), the same pairs with the unions taken through += (chains folded with +=, "
+        "self-sum) / operator.iadd / operator.add / __add__ and the operands read afterwards, then random histories, random "
         "iterator-heavy histories and random sessions (tables / mutation / tables, on pools with few and with many name collisions); a case is non-trivial when a union had two non-empty operands or a lookup / removal returned a column; distinct "
         "by canonical JSON of the case")
 TRUSTED = [
@@ -123,9 +133,28 @@ def observe(case):
         k = op[0]
         extra = {}
         try:
-            if k == "add":
+            if k in ("add", "iadd"):
                 a, b = store[op[1]], store[op[2]]
-                r = a + b
+                via = op[3] if len(op) > 3 else "+"
+                if k == "iadd":
+                    acc = a                 # a second reference to the left operand stays in the store
+                    if via == "+=":
+                        acc += b
+                    elif via == "operator.iadd":
+                        acc = operator.iadd(acc, b)
+                    else:
+                        raise KeyError(via)
+                    r = acc
+                elif via == "+":
+                    r = a + b
+                elif via == "operator.add":
+                    r = operator.add(a, b)
+                elif via == "__add__":
+                    r = a.__add__(b)
+                elif via == "type.__add__":
+                    r = type(a).__add__(a, b)
+                else:
+                    raise KeyError(via)
                 out = ["new", r.name, None if r.aliases is None else list(r.aliases)]
                 extra["fresh_object"] = (r is not a) and (r is not b) and all(r is not s for s in store)
                 extra["fresh_list"] = all(r.columns is not s.columns for s in store)
@@ -299,7 +328,7 @@ def oracle(case, obs):
             if st["snap"] != exp:
                 return f"{where}: a lookup modified a schema: expected {exp}, got {st['snap']}"
             continue
-        if k == "add":
+        if k in ("add", "iadd"):
             left, right = exp[op[1]], exp[op[2]]
             left_ids = [ident(t) for t in left["cols"]]
             extra = [t for pos, t in enumerate(right["cols"])
@@ -308,6 +337,9 @@ def oracle(case, obs):
             if out[0] != "new":
                 return f"{where}: the sum of two schemas raised {out}"
             if not st.get("is_schema") or not st.get("fresh_object"):
+                if k == "iadd":
+                    return (f"{where}: `acc = s; acc += t` must bind acc to a new RelationSchema (the sum s + t) and leave the object s, "
+                            f"which is still referenced, as it was; acc is one of the existing objects (schemas now {st['snap']})")
                 return f"{where}: the sum must be a new RelationSchema, not one of the existing objects"
             if out[1:] != [want["name"], want["aliases"]]:
                 return f"{where}: the sum must keep the left schema's name and aliases {want['name']!r} {want['aliases']}, got {out[1:]}"
@@ -421,6 +453,8 @@ def _coq_out(out):
 
 
 def _coq_op(op):
+    if op[0] == "iadd":
+        return "(HIAdd %s %s)" % (L.nat(op[1]), L.nat(op[2]))
     if op[0] == "open":
         return "(HOpen %s)" % L.nat(op[1])
     if op[0] == "next":
@@ -505,7 +539,7 @@ def nontrivial_key(case, obs):
 def _nontrivial_key(case, obs):
     hit = False
     for op, st in zip(case["ops"], obs["steps"]):
-        if op[0] == "add" and len(st["tags"]) >= 1:
+        if op[0] in ("add", "iadd") and len(st["tags"]) >= 1:
             a = st["tags"][op[1]] if op[1] < len(st["tags"]) else []
             b = st["tags"][op[2]] if op[2] < len(st["tags"]) else []
             hit = hit or (bool(a) and bool(b))
@@ -599,7 +633,11 @@ def _classify(case, obs):
                     # position, among the columns the iterator was opened on, of the column just removed
                     it[3].append(_removed_position(it, cur[op[1]], st["tags"][op[1]]))
                     yield "pop:under-an-open-iterator"
-        if k == "add":
+        if k in ("add", "iadd"):
+            if len(op) > 3:
+                yield "add:via:" + op[3]
+            if k == "iadd" and op[1] < n0:
+                yield "iadd:left-is-an-initial-schema"
             a, b = cur[op[1]], cur[op[2]]
             ia, ib = [ids[t - 1] for t in a], [ids[t - 1] for t in b]
             if op[1] >= n0 or op[2] >= n0:
@@ -943,6 +981,14 @@ _XPROBE = [["add", 0, 1], ["add", 1, 0], ["add", 2, 1], ["add", 0, 3], ["allname
            ["next", 0], ["next", 1], ["next", 2], ["next", 0], ["next", 2]]
 
 
+# round 7: acc = L; acc += R; acc += L (a chain folded with +=), R through operator.iadd, then the other spellings of +; lookups
+# and names on the operands after each; a removal on the first result; an iterator opened on L before everything
+_XPROBE_VIA = [["open", 0], ["table", 0, True, _XKEYS], ["iadd", 0, 1, "+="], ["names", 0], ["table", 0, True, _XKEYS], ["allnames", 0],
+               ["iadd", 2, 0, "+="], ["names", 2], ["iadd", 1, 0, "operator.iadd"], ["names", 1], ["table", 1, False, _XKEYS],
+               ["add", 0, 1, "operator.add"], ["add", 1, 0, "__add__"], ["add", 0, 0, "type.__add__"], ["iadd", 0, 0, "+="],
+               ["pop", 2, "a"], ["names", 0], ["names", 3], ["at", 0, -1], ["next", 0], ["next", 0], ["next", 0], ["next", 0]]
+
+
 def _loop_case(cols, mask, other):
     """`it = iter(s); for n in it: if <position selected by mask>: s.pop_column(n)`, one more next(it), then the names; with
     other: a second iterator opened half-way, advanced at the end."""
@@ -983,6 +1029,12 @@ def exhaustive(tier):
                                "ops": [["table", 0, True, _XKEYS], ["table", 0, False, _XKEYS], ["pop", 0, n1],
                                        ["table", 0, True, _XKEYS], ["table", 0, False, _XKEYS], ["pop", 0, n2],
                                        ["table", 0, True, _XKEYS], ["table", 0, False, _XKEYS], ["allnames", 0]]}
+        # round 7: the same pairs, the union taken through its other spellings with the operands observed afterwards
+        for a in lists:
+            for b in lists:
+                yield {"pool": [dict(p) for p in _XPOOL],
+                       "schemas": [{"name": "L", "aliases": ["l"], "cols": a}, {"name": "R", "aliases": [], "cols": b}],
+                       "ops": [list(o) for o in _XPROBE_VIA]}
         # remove-while-iterating: every column list of length <= depth+1, every subset of loop positions
         for d in range(depth + 2):
             for cols in itertools.product(range(4), repeat=d):
@@ -992,7 +1044,9 @@ def exhaustive(tier):
     return it(), (f"all ordered pairs of column lists of length <= {depth} over a 4-column pool (shared identity, shared name, alias/case "
                   f"collisions), each followed by a {len(_XPROBE)}-call probe history (sums both ways, chains, lookups, removals, three iterators "
                   f"opened before the removals and advanced after them, whole lookup tables before and after each removal); all lookup sessions "
-                  f"(tables, removal, tables, removal, tables) over column lists of length <= {depth + 1} x pairs of their names; all remove-while-iterating loops over column lists of length <= "
+                  f"(tables, removal, tables, removal, tables) over column lists of length <= {depth + 1} x pairs of their names; the same ordered pairs "
+                  f"followed by a {len(_XPROBE_VIA)}-call probe that takes the unions through += / operator.iadd (chain folded with +=, self-sum) / "
+                  f"operator.add / __add__ with names, tables and an open iterator on the operands afterwards; all remove-while-iterating loops over column lists of length <= "
                   f"{depth + 1} of that pool x every subset of loop positions at which the yielded name is removed")
 
 
@@ -1045,7 +1099,50 @@ def corpus():
                  ["table", 0, True, _CKEYS], ["rename", 1, 1, "label"], ["table", 2, True, _CKEYS], ["table", 1, False, _CKEYS],
                  ["setaliases", 0, 0, ["PK", "id"]], ["table", 0, True, _CKEYS], ["insert", 0, 0, 1, 0], ["table", 0, True, _CKEYS],
                  ["del", 0, 0], ["del", 0, 7], ["table", 0, False, _CKEYS], ["setaliases", 0, 0, None], ["allnames", 0], ["names", 1]]},
+        # round 7: `total = left; total += right` with left still referenced; a chain s0 s1 s2 folded with += (the first schema
+        # of the chain must iterate as before); operator.iadd; then a removal on a result and a caller's rename seen through it
+        {"pool": [{"id": "id-a", "name": "a", "aliases": []}, {"id": "id-b", "name": "b", "aliases": ["bee"]},
+                  {"id": "id-c", "name": "c", "aliases": []}, {"id": "id-d", "name": "b", "aliases": []}],
+         "schemas": [{"name": "left", "aliases": ["l"], "cols": [0, 1]}, {"name": "right", "aliases": [], "cols": [1, 2, 3, 2]},
+                     {"name": "s0", "aliases": [], "cols": [0]}, {"name": "s1", "aliases": [], "cols": [1]}, {"name": "s2", "aliases": [], "cols": [2]}],
+         "ops": [["add", 0, 1], ["open", 0], ["iadd", 0, 1, "+="], ["names", 0], ["find", 0, "c", False], ["allnames", 0], ["names", 6],
+                 ["iadd", 2, 3, "+="], ["iadd", 7, 4, "+="], ["iter", 2], ["iter", 8], ["names", 7],
+                 ["iadd", 1, 0, "operator.iadd"], ["names", 1], ["add", 0, 1, "operator.add"], ["add", 0, 1, "__add__"],
+                 ["pop", 6, "b"], ["names", 0], ["rename", 6, 0, "z"], ["table", 0, False, ["a", "z", "c", "bee"]],
+                 ["next", 0], ["next", 0], ["next", 0]]},
     ]
+
+
+_VIAS = [("iadd", "+="), ("iadd", "+="), ("iadd", "operator.iadd"), ("add", "operator.add"), ("add", "__add__"), ("add", "type.__add__"), ("add", None)]
+
+
+def _vary_union_paths(rng, case):
+    """round 7: the sums of a history taken through the other spellings of the union (+=, operator.iadd, operator.add, __add__); half
+    of the cases also start with `acc = store[i]; acc += store[j]` on two INITIAL schemas, so that the whole history that follows (lookups,
+    removals, iterators, tables, further sums on the operands) runs on operands that an in-place union would have changed"""
+    ops = [list(o) for o in case["ops"]]
+    n0 = len(case["schemas"])
+    if rng.random() < 0.5 or not any(o[0] == "add" for o in ops):
+        for o in ops:
+            for pos in _store_positions(o):
+                if o[pos] >= n0:
+                    o[pos] += 1
+        ops.insert(0, ["iadd", rng.randrange(n0), rng.randrange(n0), rng.choice(["+=", "+=", "operator.iadd"])])
+        i = ops[0][1]
+        ops.insert(1, rng.choice([["names", i], ["allnames", i], ["iter", i], ["at", i, -1]]))
+    for o in ops[1:]:
+        if o[0] == "add" and len(o) == 3:
+            k, via = rng.choice(_VIAS)
+            o[0] = k
+            if via is not None:
+                o.append(via)
+    return dict(case, ops=ops)
+
+
+def _random_via_case(rng, big=False):
+    r = rng.random()
+    base = _random_case(rng, big) if r < 0.5 else _random_session_case(rng, big) if r < 0.8 else _random_iter_case(rng, big)
+    return _vary_union_paths(rng, base)
 
 
 def generate(rng, tier):
@@ -1056,12 +1153,16 @@ def generate(rng, tier):
         yield _random_iter_case(rng, big=(i % 4 == 3))
     for i in range(350 if tier == "quick" else 5000):
         yield _random_session_case(rng, big=(i % 4 == 3))
+    for i in range(300 if tier == "quick" else 5000):
+        yield _random_via_case(rng, big=(i % 4 == 3))
 
 
 def search(rng):
     while True:
         r = rng.random()
-        if r < 0.3:
+        if r < 0.15:
+            yield _random_via_case(rng, big=rng.random() < 0.3)
+        elif r < 0.3:
             yield _random_session_case(rng, big=rng.random() < 0.3)
         elif r < 0.6:
             yield _random_iter_case(rng, big=rng.random() < 0.3)
@@ -1071,7 +1172,7 @@ def search(rng):
 
 def _store_positions(op):
     """positions, inside an op, that hold an index into the store of schemas"""
-    return {"add": (1, 2), "next": (), "insert": (1, 3)}.get(op[0], (1,))
+    return {"add": (1, 2), "iadd": (1, 2), "next": (), "insert": (1, 3)}.get(op[0], (1,))
 
 
 def _indices_ok(case):
@@ -1083,7 +1184,7 @@ def _indices_ok(case):
             continue
         if any(op[pos] >= n for pos in _store_positions(op)):
             return False
-        if op[0] == "add":
+        if op[0] in ("add", "iadd"):
             n += 1
         elif op[0] == "open":
             m += 1
@@ -1094,8 +1195,8 @@ def _drop_op(case, i):
     """the case without call i, later references renumbered; None when a later call needs what call i created"""
     ops = case["ops"]
     op, rest = ops[i], [list(o) for o in ops[i + 1:]]
-    if op[0] == "add":
-        made = len(case["schemas"]) + sum(1 for o in ops[:i] if o[0] == "add")
+    if op[0] in ("add", "iadd"):
+        made = len(case["schemas"]) + sum(1 for o in ops[:i] if o[0] in ("add", "iadd"))
         for o in rest:
             for pos in _store_positions(o):
                 if o[pos] == made:
